@@ -259,13 +259,22 @@ def _cause_var(b, e):
     return 0
 
 
+_OPTS = {}
+
+
 def compile_recipe(prog, version, scratch_slots=None, frame_pointers=None, assemble_constants=False, mode=None):
     """Returns {"teal": text} or {"err": class name, "pyteal_error": bool, "msg": str, "cvar": int}."""
     b = None
     try:
         b = Builder(prog)
         ast = b.build(prog["main"])
-        opt = pt.OptimizeOptions(scratch_slots=scratch_slots, frame_pointers=frame_pointers)
+        # one OptimizeOptions object per setting is reused for all compilations of this worker process, the way
+        # Router.compile_program reuses one for the approval and the clear-state program: compiling must not
+        # leave anything behind in it (C03 / C11)
+        okey = (scratch_slots, frame_pointers)
+        if okey not in _OPTS:
+            _OPTS[okey] = pt.OptimizeOptions(scratch_slots=scratch_slots, frame_pointers=frame_pointers)
+        opt = _OPTS[okey]
         md = mode_of(prog) if mode is None else (pt.Mode.Application if mode == "app" else pt.Mode.Signature)
         teal = pt.compileTeal(ast, md, version=version, assembleConstants=assemble_constants,
                               optimize=opt)
